@@ -24,6 +24,10 @@ def gen(ctx):
     yield dict(kind="blk1", hist=[[7]], b=1, T=3, rule="probe:5", dtype="int32")
     yield dict(kind="blk2", hist=[[[1, 2, 3, 4], [5, 6, 7, 8]]], b=[2, 2], T=3, rule="rot", dtype="int32")
     yield dict(kind="blk2", hist=[[[1, 2, 3], [4, 5, 6]]], b=[2, 3], T=3, rule="rev", dtype="int32")
+    yield dict(kind="blk2", hist=[[[(5 * i + j) % 7 for j in range(6)] for i in range(8)]], b=[4, 3], T=4, rule="rot", dtype="int32")
+    yield dict(kind="blk2", hist=[[[(3 * i + j) % 5 for j in range(10)] for i in range(8)]], b=[2, 5], T=3, rule="sumrot", dtype="int32")
+    yield dict(kind="blk1", hist=[[(3 * i) % 7 for i in range(24)]], b=6, T=4, rule="rot", dtype="int32")
+    yield dict(kind="blk1", hist=[[(3 * i) % 7 for i in range(24)]], b=8, T=4, rule="sumrot", dtype="int32")
     for T in (34, 70, 131):
         yield dict(kind="blk1", hist=[[rng.randrange(3) for _ in range(6)]], b=rng.choice([2, 3]), T=T, rule=rng.choice(["rot", "sumrot", "counter:3"]), dtype="int32")
         yield dict(kind="blk2", hist=[[[rng.randrange(3) for _ in range(4)] for _ in range(2)]], b=[rng.choice([1, 2]), 2], T=T, rule=rng.choice(["rot", "rev"]), dtype="int32")
@@ -31,8 +35,8 @@ def gen(ctx):
         yield dict(kind="blk1", hist=[[(i * 7 + i // 5) % 4 for i in range(N)]], b=b, T=3, rule="sumrot", dtype="int32")
     yield dict(kind="blk2", hist=[[[(3 * i + j) % 4 for j in range(260)] for i in range(258)]], b=[2, 2], T=3, rule="rot", dtype="int32")
     for _ in range(ctx.n(400, 4000)):
-        b = rng.randint(1, 5)
-        m = rng.randint(1, max(1, 30 // b))
+        b = rng.choice([1, 2, 3, 4, 5, 6, 8])
+        m = rng.randint(1, max(1, 32 // b))
         N = b * m
         if rng.random() < 0.12:
             N = N + rng.randint(1, max(1, b - 1)) if b > 1 else N     # not divisible (when b > 1)
@@ -42,9 +46,9 @@ def gen(ctx):
         rule = rng.choice(PERMS + PERMS + ["probe:%d" % k, "counter:%d" % k, "short"])
         yield dict(kind="blk1", hist=hist, b=b, T=rng.randint(1, 6), rule=rule, dtype=rng.choice(["int32", "int64", "uint8"]))
     for _ in range(ctx.n(300, 3000)):
-        b0, b1 = rng.randint(1, 3), rng.randint(1, 3)
-        R = b0 * rng.randint(1, max(1, 9 // b0))
-        C = b1 * rng.randint(1, max(1, 9 // b1))
+        b0, b1 = rng.choice([1, 2, 3, 3, 4, 5, 6]), rng.choice([1, 2, 2, 3, 4, 5, 6])
+        R = b0 * rng.randint(1, max(1, 12 // b0))
+        C = b1 * rng.randint(1, max(1, 12 // b1))
         if rng.random() < 0.12:
             if rng.random() < 0.5 and b0 > 1:
                 R += 1
